@@ -296,7 +296,11 @@ func (fr *Frame) staticCall(st *State, g string, site ssa.Instruction, callee *s
 	sig := callee.Signature
 	cname := canonFunc(callee)
 	fr.callSiteAsserts(st, g, cname, false, args, callee, pos)
-	defer func() {}()
+	if cname == "sort.Search" && len(argVals) == 2 {
+		if mc, ok := argVals[1].(*ssa.MakeClosure); ok {
+			return fr.sortSearch(st, g, args[0], mc, pos)
+		}
+	}
 	fc := eng.contractFor(callee)
 	if fc == nil {
 		fc = eng.lookupExtern(cname, "extern")
@@ -306,6 +310,25 @@ func (fr *Frame) staticCall(st *State, g string, site ssa.Instruction, callee *s
 	switch {
 	case fc != nil && fc.Kind == "func" && !fc.Inline:
 		st2, res = fr.applyContract(st, g, fc, callee, args, pos, site)
+	case fc != nil && fc.Kind != "func" && fc.Pure && sig.Variadic() && fr.variadicElems(st, argVals) != nil:
+		// pure variadic function (filepath.Join): uninterpreted function of the individual elements
+		elems := fr.variadicElems(st, argVals)
+		vc.trust("assumed contract: %s %s (%s:%d)", fc.Kind, fc.Name, shortFile(fc.File), fc.Line)
+		et := sig.Params().At(sig.Params().Len() - 1).Type().(*types.Slice).Elem()
+		rt := sig.Results().At(0).Type()
+		fname := fmt.Sprintf("pure_%s_0_n%d", sanitize(fc.Name), len(elems)+sig.Params().Len()-1)
+		var sorts []string
+		var ts []string
+		for i := 0; i < sig.Params().Len()-1; i++ {
+			sorts = append(sorts, vc.sortOf(sig.Params().At(i).Type()))
+			ts = append(ts, args[i])
+		}
+		for _, e := range elems {
+			sorts = append(sorts, vc.sortOf(et))
+			ts = append(ts, e)
+		}
+		vc.decl("f:"+fname, fmt.Sprintf("(declare-fun %s (%s) %s)", fname, strings.Join(sorts, " "), vc.sortOf(rt)))
+		st2, res = st, []string{fmt.Sprintf("(%s %s)", fname, strings.Join(ts, " "))}
 	case fc != nil && fc.Kind != "func":
 		var pts []types.Type
 		if sig.Recv() != nil {
@@ -410,6 +433,12 @@ func (fr *Frame) unknownCall(st *State, g string, name string, argVals []ssa.Val
 		for i, a := range argVals {
 			if i >= len(args) {
 				break
+			}
+			if l, ok := fr.locs[a]; ok && l.addr != "" || ok && len(l.path) > 0 {
+				// interior pointer or known location: havoc exactly that location
+				f := vc.freshConst("hvarg", vc.sortOf(l.resultType()))
+				st = fr.store(st, l, f)
+				continue
 			}
 			st = fr.havocArg(st, a.Type(), args[i])
 		}
@@ -800,7 +829,7 @@ func (fr *Frame) applyContract(st *State, g string, fc *FuncContract, callee *ss
 		st = st.havoc(vc.fresh("eff"), names, false, allGhost)
 	}
 	st = fr.applyModifies(st, pre, fc, env, args, ptypes)
-	if len(fc.Modifies) > 0 || true {
+	if len(fc.Modifies) > 0 || returnsRefs(sig) {
 		nv := vc.nextVar()
 		n2 := vc.freshConst("NEXT", "Int")
 		vc.assume(fmt.Sprintf("(<= %s %s)", st.get(nv), n2))
@@ -1081,4 +1110,74 @@ func (fr *Frame) modifiesAll() bool {
 		}
 	}
 	return false
+}
+
+// sortSearch: assumed contract of sort.Search(n, f) for an arbitrary predicate f
+// (it follows from the loop invariant of the binary search, no monotonicity needed):
+//   0 <= r <= n,  r < n ==> f(r),  r > 0 ==> !f(r-1)
+// f(r) and f(r-1) are obtained by inlining the real closure body.
+func (fr *Frame) sortSearch(st *State, g string, n string, mc *ssa.MakeClosure, pos token.Pos) (*State, []string) {
+	vc := fr.vc
+	it := types.Typ[types.Int]
+	vc.trust("assumed contract of sort.Search: 0 <= r <= n, r < n ==> f(r), r > 0 ==> !f(r-1), with f the inlined closure (pure)")
+	r := vc.freshConst("search", vc.sortOf(it))
+	vc.assume(implies(g, and(vc.leInt(vc.intLitN(0, it), r), vc.leInt(r, n))))
+	ci := fr.findClosure(mc)
+	fn := mc.Fn.(*ssa.Function)
+	g1 := and(g, vc.ltInt(r, n))
+	st1, res1 := fr.inline(st, g1, fn, []string{r}, ci, pos)
+	rm1 := vc.subInt(r, vc.intLitN(1, it))
+	g2 := and(g, vc.ltInt(vc.intLitN(0, it), r))
+	st2, res2 := fr.inline(st, g2, fn, []string{rm1}, ci, pos)
+	if st1 != st || st2 != st {
+		// the closure must be pure
+		if st1.get(vc.nextVar()) != st.get(vc.nextVar()) {
+			panic(unsupported("sort.Search predicate is not pure"))
+		}
+	}
+	vc.assume(implies(g1, res1[0]))
+	vc.assume(implies(g2, not(res2[0])))
+	return st, []string{r}
+}
+
+func returnsRefs(sig *types.Signature) bool {
+	for i := 0; i < sig.Results().Len(); i++ {
+		switch sig.Results().At(i).Type().Underlying().(type) {
+		case *types.Basic:
+		default:
+			return true
+		}
+	}
+	return false
+}
+
+// variadicElems recognises the SSA pattern for f(a, b, c...) with explicit
+// arguments: new [k]T; stores; slice[:]  and returns the element terms.
+func (fr *Frame) variadicElems(st *State, argVals []ssa.Value) []string {
+	if len(argVals) == 0 {
+		return nil
+	}
+	last := argVals[len(argVals)-1]
+	slc, ok := last.(*ssa.Slice)
+	if !ok || slc.Low != nil || slc.High != nil {
+		return nil
+	}
+	al, ok := slc.X.(*ssa.Alloc)
+	if !ok {
+		return nil
+	}
+	arr, ok := al.Type().Underlying().(*types.Pointer).Elem().Underlying().(*types.Array)
+	if !ok || arr.Len() > 8 {
+		return nil
+	}
+	l := fr.locs[al]
+	if l == nil {
+		return nil
+	}
+	var out []string
+	for i := int64(0); i < arr.Len(); i++ {
+		el := l.extend(step{isIndex: true, index: fr.vc.intLitN(i, types.Typ[types.Int]), elem: arr.Elem()})
+		out = append(out, fr.load(st, el))
+	}
+	return out
 }
